@@ -763,6 +763,9 @@ class Variant(productmd.composeinfo.VariantBase):
                 self.add(variant)
 
     def deserialize_1_0(self, parser, uid, addon=False):
+        if addon and not parser.has_section(self._section) and parser.has_section("variant-" + uid):
+            # child variants of other types than addon are written to [variant-UID]
+            self.type = None
         self.id = parser.get(self._section, "id")
         self.uid = parser.get(self._section, "uid")
         self.name = parser.get(self._section, "name")
